@@ -98,7 +98,7 @@ fn searches(tier: Tier) -> (Vec<Search>, f64) {
     match tier {
         Tier::Quick => (
             vec![Search { name: "quick", thorough_alphabet: false, depth_by_start: [cap(3), cap(2), cap(2)], level_at_depth: |s, d| if d <= 1 || (s == 0 && d <= 2) { 1 } else { 0 }, wall_share: 1.0 }],
-            wall_env.unwrap_or(45.0),
+            wall_env.unwrap_or(48.0),
         ),
         Tier::Thorough => (
             vec![
